@@ -35,10 +35,49 @@ PER_REQUEST_CLASSES = {('clastic.application', 'DispatchState'), ('clastic.error
                        ('clastic.application', 'RerouteWSGI')}
 
 
+def core_modules(repo):
+    """The modules of the framework core: the listed ones, plus every *private* module of the package (``_name.py``) a core
+    module imports a function or class from -- a piece of the core that was split off into a module of its own and is
+    imported back under its name (transitively).  The definitions in it are judged like those that stayed behind."""
+    mods = [repo.mod(n) for n in CORE_MODS if repo.try_mod(n) is not None]
+    todo = list(mods)
+    while todo:
+        m = todo.pop(0)
+        for local, (modname, attr) in sorted(m.imports.items()):
+            if attr is None or not repo.is_internal(modname) or not modname.rpartition('.')[2].startswith('_'):
+                continue
+            try:
+                tm = repo.try_mod(modname)
+            except AnalysisError:
+                tm = None
+            if tm is None or tm.external or tm in mods or tm.is_pkg:
+                continue
+            if attr in tm.functions or attr in tm.classes:
+                mods.append(tm)
+                todo.append(tm)
+    return mods
+
+
+def role_classes(repo, name):
+    """The classes a role name of ``callgraph.ROLE_TABLE`` stands for, as definitions: each ``(module, class)`` entry is
+    resolved in that module's namespace, so a class that moved to another module and is imported back is still meant."""
+    from ..callgraph import ROLE_TABLE
+    out = []
+    for modname, cname in ROLE_TABLE.get(name, []):
+        m = repo.try_mod(modname)
+        if m is None:
+            continue
+        try:
+            out.append(m.cls(cname))
+        except AnalysisError:
+            continue
+    return out
+
+
 class RequestPath(object):
     def __init__(self, repo):
         self.repo = repo
-        self.mods = [repo.mod(n) for n in CORE_MODS if repo.try_mod(n) is not None]
+        self.mods = core_modules(repo)
         self.cg = CallGraph(repo, self.mods)
         app = repo.mod('clastic.application')
         self.root = app.func('Application.__call__')
@@ -55,12 +94,12 @@ class RequestPath(object):
                     self.dynamic_roots.append((c.methods[nm], 'inject(self.render_error) / err_handler.%s' % nm))
             for attr, v in c.class_attrs.items():
                 if attr.endswith('_type') and isinstance(v, ast.Name):
-                    k, m, obj = repo.resolve(err, v.id)
+                    k, m, obj = repo.resolve(c.mod, v.id)
                     if k == 'class':
                         for meth in obj.methods.values():
                             self.dynamic_roots.append((meth, '%s.%s = %s (instantiated per request)' % (c.name, attr, obj.name)))
                         for base in repo.mro(obj):
-                            if isinstance(base, ClassInfo) and base.mod is err:
+                            if isinstance(base, ClassInfo) and not base.mod.external:
                                 for meth in base.methods.values():
                                     self.dynamic_roots.append((meth, 'base %s of %s' % (base.name, obj.name)))
         self.dynamic_roots.append((route.func('NullRoute.handle_sentinel_condition'), 'endpoint of the null route (run through the generated chain)'))
@@ -69,8 +108,12 @@ class RequestPath(object):
         self.per_request = []
         for modname, cname in PER_REQUEST_CLASSES:
             m = repo.try_mod(modname)
-            if m is not None and cname in m.classes:
-                self.per_request.append(m.classes[cname])
+            if m is None:
+                continue
+            try:
+                self.per_request.append(m.cls(cname))       # (follows the class to the module it is defined in)
+            except AnalysisError:
+                continue
 
     def _stop(self, e):
         # construction-time entry points are not part of serving a request even if a by-name edge finds them
@@ -405,7 +448,7 @@ class RequestPath(object):
                 if isinstance(n, ast.Name):
                     names.add(n.id)
             for name in sorted(names - {'self', 'cls'}):
-                roles = [c for c in classes if (c.mod.name, c.name) in ROLE_TABLE.get(name, [])]
+                roles = [c for c in classes if name in ROLE_TABLE and c in role_classes(self.repo, name)]
                 if not roles and name not in fi.params():
                     vals = assigned_value(fi.node, name)
                     ctor = []
